@@ -155,7 +155,9 @@ class C19(F.PropCheck):
     def finish(self, rng, cid, cfg, evs, marks, t, tags, primary_marks=None, ref1=1):
         pm = primary_marks or marks
         if pm:
-            m = rng.choice(pm); pad = (self.PHASE - m) % 1000000; primary = m + pad
+            # odd offset: the marks of these scenarios sit on timer-tick instants (k * 20 ms after a press, ...); a wrap exactly on a
+            # tick makes that tick read the counter as 0 and the whole run falls under the zero-sample exclusion
+            m = rng.choice(pm) + rng.choice([1117, 3331, 7333, -2221, 10007]); pad = (self.PHASE - m) % 1000000; primary = m + pad
         else: pad, primary = 0, 1000000 + self.PHASE
         if pad: evs = [('ADV', [pad], b'')] + evs; marks = [x + pad for x in marks]; t += pad
         boots = self.wrap_boots(rng, marks, max(t, 200000), rng.choice([2, 3]), primary)
